@@ -141,14 +141,10 @@ def main():
             chk(k, t[1] + ".exp", int(t[3]), e)
         elif k == "BELL_SMALL_INT":
             chk(k, t[1], int(t[2]), 10 ** int(t[1]))
-        elif k == "F64_CONSTS":
-            chk(k, "max_digits", int(t[1]), 769)
-            chk(k, "smallest_pow10", int(t[2]), -342)
-            chk(k, "largest_pow10", int(t[3]), 308)
-        elif k == "F32_CONSTS":
-            chk(k, "max_digits", int(t[1]), 114)
-            chk(k, "smallest_pow10", int(t[2]), -65)
-            chk(k, "largest_pow10", int(t[3]), 38)
+        elif k in ("F64_CONSTS", "F32_CONSTS"):
+            # informational only (digit cut-offs and exponent ranges are not power constants; other values can be
+            # equally correct, e.g. a larger MAX_DIGITS) - not judged here
+            pass
     missing = []
     compact = cfg is not None and "compact" in cfg
     need = {"INT_POW5": 28, "INT_POW10": 20, "F64_POW10": 23, "F32_POW10": 11}
